@@ -18,6 +18,7 @@ import (
 	"sync"
 	"syscall"
 	"testing"
+	"time"
 	"unicode/utf8"
 
 	"pgregory.net/rapid"
@@ -45,6 +46,8 @@ type toolCase struct {
 	// TmpElsewhere: run the tool with TMPDIR on another filesystem than its working directory
 	// (when the sandbox has one), as on machines where /tmp is a tmpfs.
 	TmpElsewhere bool `json:"tmp_elsewhere,omitempty"`
+	// Procs: GOMAXPROCS for the tool process (0 = inherit): the output must not depend on it
+	Procs int `json:"procs,omitempty"`
 }
 
 // in-process upstream server: /<case id>/<name>.txt
@@ -90,11 +93,12 @@ func upstreamStart() {
 			}
 			w.Header().Set("Content-Type", "text/plain; charset=utf-8")
 			if len(r.URL.Path)%2 == 0 {
-				// framed by Content-Length, as static file hosts do (the final read then carries the data
-				// together with io.EOF); otherwise large bodies go out chunked
-				w.Header().Set("Content-Length", strconv.Itoa(len(b)))
+				// the way static file hosts answer: Content-Length framing (the final read carries the
+				// data together with io.EOF), a Last-Modified date in the past, conditional requests honoured
+				http.ServeContent(w, r, "", time.Date(2021, 3, 4, 5, 6, 7, 0, time.UTC), bytes.NewReader(b))
+				return
 			}
-			w.Write(b)
+			w.Write(b) // otherwise: no validators, large bodies go out chunked
 		}))
 	})
 }
@@ -127,7 +131,7 @@ func otherFilesystemDir(dir string) string {
 
 // runToolIn runs the tool in dir (a fresh scratch directory when empty); the first download of
 // faultTarget (if any) is cut half way.
-func runToolIn(dir string, files map[string][]byte, faultTarget string, tmpElsewhere bool) (outDir string, cleanup func(), err error) {
+func runToolIn(dir string, files map[string][]byte, faultTarget string, tmpElsewhere bool, procs ...int) (outDir string, cleanup func(), err error) {
 	tool := os.Getenv("VERIF_TOOL")
 	if tool == "" {
 		harnessError("c17: VERIF_TOOL not set")
@@ -181,6 +185,9 @@ func runToolIn(dir string, files map[string][]byte, faultTarget string, tmpElsew
 	cmd := exec.Command(tool)
 	cmd.Dir = dir
 	cmd.Env = append(os.Environ(), "BIP39_VERIF_WORDLIST_URL="+baseURL, "HTTP_PROXY=", "http_proxy=", "NO_PROXY=*")
+	if len(procs) > 0 && procs[0] > 0 {
+		cmd.Env = append(cmd.Env, fmt.Sprintf("GOMAXPROCS=%d", procs[0]))
+	}
 	if tmpElsewhere {
 		if other := otherFilesystemDir(dir); other != "" {
 			defer os.RemoveAll(other)
@@ -352,7 +359,7 @@ var c17Check = register("C17", "c17.tool", func(c *toolCase) error {
 		dir = filepath.Dir(filepath.Dir(bdir))
 		sig += " rerun"
 	}
-	outDir, cleanup, err := runToolIn(dir, files, c.FaultTarget, c.TmpElsewhere)
+	outDir, cleanup, err := runToolIn(dir, files, c.FaultTarget, c.TmpElsewhere, c.Procs)
 	defer cleanup()
 	if err != nil && c.FaultTarget != "" && upstream.err == nil {
 		return nil // the download was cut: aborting is what the unchanged tool does; nothing to judge
@@ -511,7 +518,7 @@ func TestC17_Tool(t *testing.T) {
 			}
 			long[l.File()] = gen.WordFile{Lines: lines, FinalNewline: true}
 		}
-		c := &toolCase{Kind: "canonical", Before: long, TmpElsewhere: true}
+		c := &toolCase{Kind: "canonical", Before: long, TmpElsewhere: true, Procs: 1}
 		c17Record(c)
 		cov.Class("rerun-over-existing-output")
 		judge(t, "c17.tool", c17Check, c)
@@ -541,6 +548,7 @@ func TestC17_Tool(t *testing.T) {
 			cov.Class("first-download-cut-half-way")
 		}
 		c.TmpElsewhere = rapid.IntRange(0, 3).Draw(rt, "tmp-elsewhere") == 0
+		c.Procs = rapid.SampledFrom([]int{0, 0, 1, 2, 3, 8}).Draw(rt, "procs")
 		c17Record(c)
 		if k++; k == 3 {
 			small := &toolCase{Kind: "files", Files: map[string]gen.WordFile{}}
